@@ -64,6 +64,7 @@ def analyse_run(cfg, driver, props=PROPS):
         'C12': lambda: analyse.oracle_c12(rec),
         'C15': lambda: analyse.oracle_c15(rec, driver),
         'C20': lambda: analyse.oracle_c20(rec),
+        'C08': lambda: analyse.oracle_c08(rec),
     }
     for p in props:
         try:
